@@ -282,23 +282,28 @@ func newSvcDiscoveryClient(scope string, streamMaker svcDiscoveryStreamMaker) *s
 
 func (c *svcDiscoveryClient) Subscribe(svcName string) {
 	c.Lock()
-	defer c.Unlock()
 	_, ok := c.subscribed[svcName]
 	if ok {
+		c.Unlock()
 		return
 	}
 	c.subscribed[svcName] = struct{}{}
+	c.Unlock()
+	// NOTE: never block on the channel while holding the lock, the run loop
+	// needs it (resubscribe) before it starts draining the channel again.
 	c.subCh <- svcName
 }
 
 func (c *svcDiscoveryClient) Unsubscribe(svcName string) {
 	c.Lock()
-	defer c.Unlock()
 	_, ok := c.subscribed[svcName]
 	if !ok {
+		c.Unlock()
 		return
 	}
 	delete(c.subscribed, svcName)
+	c.Unlock()
+	// NOTE: see Subscribe.
 	c.unsubCh <- svcName
 }
 
